@@ -128,7 +128,7 @@ fn interleaving(rng: &mut Rng, max_steps: usize) -> (String, String) {
 }
 
 /// Two real threads, free running.
-fn stress(seed: u64, total: u64) -> String {
+fn stress(seed: u64, total: u64, tagged: bool) -> String {
     verif::set_stream_size(4096);
     let (w, r) = new_stream::<u64>();
     verif::set_stream_size(0);
@@ -156,7 +156,10 @@ fn stress(seed: u64, total: u64) -> String {
         false
     };
     let produced = Arc::new(AtomicU64::new(0));
+    let stop = Arc::new(AtomicBool::new(false));
+    let _wd = deadline(120, format!("stress seed={seed} total={total} tagged={tagged}: two free-running threads on one stream"));
     let th = {
+        let stop = stop.clone();
         let wwin = wwin.clone();
         let rwin = rwin.clone();
         let bad = bad.clone();
@@ -164,7 +167,7 @@ fn stress(seed: u64, total: u64) -> String {
         std::thread::spawn(move || {
             let mut rng = Rng::new(seed);
             let mut next = 0u64;
-            while next < total {
+            while next < total && !stop.load(Ordering::SeqCst) {
                 let mut b = w.write_buf().unwrap();
                 let len = b.len();
                 if len == 0 {
@@ -173,7 +176,7 @@ fn stress(seed: u64, total: u64) -> String {
                     continue;
                 }
                 let start = (b.slice().as_ptr() as usize - base) / 8 % cap;
-                let k = len.min(rng.range(1, 700)).min((total - next) as usize);
+                let k = len.min(if tagged { rng.range(1, 40) } else { rng.range(1, 700) }).min((total - next) as usize);
                 wwin.1.store(k, Ordering::SeqCst);
                 wwin.0.store(start, Ordering::SeqCst);
                 let rw = (rwin.0.load(Ordering::SeqCst), rwin.1.load(Ordering::SeqCst));
@@ -184,7 +187,21 @@ fn stress(seed: u64, total: u64) -> String {
                     b.slice()[i] = next + i as u64;
                 }
                 wwin.0.store(usize::MAX, Ordering::SeqCst);
-                b.produce(k, &[]);
+                if tagged {
+                    // tags with long string values: whatever produce() does with them takes time
+                    let tags: Vec<rustradio::stream::Tag> = (0..3)
+                        .map(|j| {
+                            rustradio::stream::Tag::new(
+                                (j * 7) % k,
+                                format!("k{j}"),
+                                rustradio::stream::TagValue::String("x".repeat(300)),
+                            )
+                        })
+                        .collect();
+                    b.produce(k, &tags);
+                } else {
+                    b.produce(k, &[]);
+                }
                 next += k as u64;
                 produced.store(next, Ordering::SeqCst);
             }
@@ -228,12 +245,14 @@ fn stress(seed: u64, total: u64) -> String {
         b.consume(m);
         expect += m as u64;
     }
+    // the reader is done (or gave up): release a writer that waits for room
+    stop.store(true, Ordering::SeqCst);
     th.join().unwrap();
     if bad.load(Ordering::SeqCst) {
         err = "a live write window overlapped a live read window".into();
     }
     format!(
-        "!stress seed={seed} total={total}\t{}",
+        "!stress seed={seed} total={total} tagged={tagged}\t{}",
         if err.is_empty() { "pass".to_string() } else { format!("FAIL {err}") }
     )
 }
@@ -252,7 +271,8 @@ pub fn run(args: &[String]) -> Vec<String> {
         out.push(format!("{req}\t{obs}"));
     }
     for i in 0..stress_runs {
-        out.push(stress(seed.wrapping_mul(1000).wrapping_add(i as u64), stress_total));
+        out.push(stress(seed.wrapping_mul(1000).wrapping_add(i as u64), stress_total, false));
+        out.push(stress(seed.wrapping_mul(1000).wrapping_add(500 + i as u64), stress_total / 4, true));
     }
     out
 }
